@@ -18,16 +18,34 @@ from core import Result, hexs
 ID = 'C02'
 MODULE = 'PyTough.Props.C02'
 TARGETS = ['PyTough.Props.C02', 'drv_c02']
-THEOREMS = []          # filled below from the Props file (kept in sync by the builder)
-LEVEL_TEXT = 'see Props/C02.lean'
+THEOREMS = ['Props.C02.' + t for t in [
+    'decLen_le_iff', 'fmtE_length', 'fmtE_mantissa_normalised', 'fmtE_nearest', 'fmtF_length', 'fmtD_length', 'fmtS_length',
+    'written_field_exact_width', 'reduced_precision_is_maximal', 'fails_only_when_too_wide', 'fails_only_when_unrepresentable',
+    'no_silent_spill', 'full_record_length', 'columns_of_field', 'written_field_in_own_columns',
+    'parse_depends_only_on_own_columns', 'write_then_parse_field', 'parse_written_record',
+    'roundtrip_real_e', 'roundtrip_int_in_real_field', 'roundtrip_real_f', 'roundtrip_int', 'roundtrip_name',
+    'roundtrip_name_full_width', 'roundtrip_absent', 'parse_short_line', 'read_missing', 'all_tables_wf']]
+LEVEL_TEXT = ('Proof: 28 Lean theorems (no sorry, axioms <= propext/Classical.choice/Quot.sound) about the executable model of '
+              'preprocess_specification / parse_string / write_values_to_string / fit_value and of Python %-formatting on exact values: '
+              'for EVERY spec list and EVERY value list the write raises or yields exactly one text per field, each exactly as wide as its '
+              'columns and equal to blanks, the formatted value, or the value at the largest smaller precision that fits (no_silent_spill, '
+              'reduced_precision_is_maximal, fails_only_when_unrepresentable); each field of the written line sits in its own columns and '
+              'parse_string reads a field from those columns only (write_then_parse_field); integers and names read back exactly, reals as '
+              'the printed (correctly rounded, normalised) digits, None as None, for both conversion dictionaries (roundtrip_*); exact width '
+              'formulas for %e %f %d %s (the fits lattice); short lines (parse_short_line); and by decide over the four tables regenerated '
+              'from /repo every run (77 record kinds, ~490 fields) that the model computes the real line_spec/spec_width and every field is '
+              'well formed (all_tables_wf). Nothing is _partial.')
+LEVEL_NOTE = ('Tie: Gen/Specs.lean is regenerated from the imported modules on every run; the compiled model is diffed against the real '
+              'write_values_to_string / parse_string (both read-function dictionaries) on every (table, record, field) x value lattice, text '
+              'for text, plus a model-independent oracle with sentinel neighbours. Trusted: Lean kernel; the model of % formatting '
+              '(Model/Fixed.lean fmtE/fmtF on the exact rational of the double, diffed against CPython on every run); Py/Num.lean '
+              'float()/int() grammar (diffed in C16); A-float for decimal->double; str(float) in %s fields and %g are outside the model.')
+TECHNIQUE = 'Lean 4 proof over an executable model of the record layer + translator for the four format tables + differential correspondence and sentinel oracle'
 ASSUMPTIONS = ['A-float: CPython float()/% conversions are correctly rounded; the model formats the exact rational value of the double',
-               "values handed to 's' fields are strings or ints (str(float) = shortest repr is outside the model)"]
-TRUSTED_EXTRA = ['harness/translate/specs.py dumps the tables from the imported modules of the current tree']
-
-try:
-    from props.c02_theorems import THEOREMS, LEVEL_TEXT, LEVEL_NOTE, TECHNIQUE   # written by the C02 builder
-except ImportError:
-    pass
+               "values handed to 's' fields are strings or ints (str(float) = shortest repr is outside the model)",
+               'ASCII text only']
+TRUSTED_EXTRA = ['harness/translate/specs.py dumps the tables from the imported modules of the current tree',
+                 "Model/Fixed.lean fmtEBody/fmtFBody as a model of CPython's '%e'/'%f' (diffed against CPython on every run, facet fixed_fields)"]
 
 
 def translate(ctx):
